@@ -71,7 +71,7 @@ type Case struct {
 	Mech    string `json:"mech"`              // escape mechanism of the class
 	Mod     string `json:"mod,omitempty"`     // spelling modifier
 	Path    string `json:"path"`              // the path ({ROOT}/{OUT} placeholders)
-	Form    string `json:"form"`              // direct | nested | goroutine | value
+	Form    string `json:"form"`              // direct | nested | goroutine | value | toplevel
 	Prelude string `json:"prelude,omitempty"` // attempt to lift the sandbox first
 	Alt     string `json:"alt"`               // alternate world for the differential: B | C
 	// SQL, when set, names a statement template: the database is opened on a
@@ -438,6 +438,18 @@ func buildProgram(s *slot, c Case, path string) string {
 	case "nested":
 		w("func c26call() {\n%s}\n", guarded)
 	}
+	if c.Form == "toplevel" {
+		// bare statements at the outermost scope, no main: what the
+		// dashboard's run endpoint is given by a user typing statements
+		if !strings.HasPrefix(c.Prelude, "directive") {
+			w("%s", preludes[c.Prelude])
+		}
+		// no try block either: the statements must sit directly in the
+		// outermost scope (a runtime error then simply ends the program)
+		w("%s", body.String())
+		w("fmt.Println(\"C26-END\")\n")
+		return b.String()
+	}
 	w("func main() {\n")
 	if !strings.HasPrefix(c.Prelude, "directive") {
 		w("%s", preludes[c.Prelude])
@@ -511,7 +523,12 @@ func runIn(world, layout, src string) runResult {
 		fmt.Printf("HARNESS-ERROR property=C26 a generated program did not return within 5 minutes (non-terminating runtime call; not a C26 verdict); layout=%s world=%s program:\n%s\n", layout, world, src)
 		os.Exit(2)
 	})
-	r := egorun.Run(src, egorun.Config{Types: "dynamic", Extensions: true, EntryPoint: "main", Sandbox: true})
+	var r egorun.Result
+	if strings.Contains(src, "func main()") {
+		r = egorun.Run(src, egorun.Config{Types: "dynamic", Extensions: true, EntryPoint: "main", Sandbox: true})
+	} else {
+		r = runDashboard(src) // bare top-level statements: the dashboard's own path
+	}
 	watchdog.Stop()
 	_ = os.Chdir(fx.base)
 	restoreEnv()
@@ -872,7 +889,7 @@ func clip(s string, n int) string {
 
 // ---------------------------------------------------------------- generator
 
-var forms = []string{"direct", "direct", "nested", "goroutine", "value"}
+var forms = []string{"direct", "direct", "nested", "goroutine", "value", "toplevel"}
 
 func prefTarget(s *slot) []string {
 	switch s.F.Pkg {
@@ -921,7 +938,12 @@ func gen(t *rapid.T) Case {
 	ct := getCatalogue()
 	poolOnce.Do(func() { pool = systematic(false) })
 	if rapid.Bool().Draw(t, "systematic") {
-		return pool[rapid.IntRange(0, len(pool)-1).Draw(t, "index")]
+		c := pool[rapid.IntRange(0, len(pool)-1).Draw(t, "index")]
+		c.Form = rapid.SampledFrom(forms).Draw(t, "form")
+		if c.Form == "value" && (c.Method != "" || ct.slots[c.Slot].F.Pkg == "") {
+			c.Form = "direct"
+		}
+		return c
 	}
 	var c Case
 	c.Slot = rapid.SampledFrom(ct.ids).Draw(t, "slot")
@@ -1133,7 +1155,7 @@ func TestC26(t *testing.T) {
 		Rule: "function slots enumerated from ego's declaration tables (R1 parameter flagged Sandboxed, R2 path-like parameter name, R3 package calls a file-system API) " +
 			"x variants x optional receiver function of the result x targets (4 canary files, directories, not-yet-existing names) x spellings (relative, ./, a/../, absolute inside; " +
 			"../ chains up to 4 levels, re-entering, absolute outside incl. // and /./ forms, outside tree shares the root's string prefix; through links: to file, to dir, chains, relative targets, dangling, to parent, to inside; " +
-			"modifiers: trailing / and /., >PATH_MAX of ./, >NAME_MAX component, NUL) x 9 symlink layouts x call forms (direct, nested function, goroutine, function value) x attempts to lift the sandbox first. " +
+			"modifiers: trailing / and /., >PATH_MAX of ./, >NAME_MAX component, NUL) x 9 symlink layouts x call forms (in main, nested function, goroutine, function value, bare top-level statements) x attempts to lift the sandbox first. " +
 			"Non-trivial: the slot is a path slot (R1 or R2) and the spelling resolves outside the root lexically or through a link (harness model of kernel path resolution), or names a file that exists only in the process cwd; " +
 			"distinct by (slot, variant, method, layout, path).",
 		Assumptions: []string{
